@@ -15,6 +15,9 @@ static void *(*real_malloc)(size_t);
 static void (*real_free)(void *);
 static void *(*real_realloc)(void *, size_t);
 static void *(*real_calloc)(size_t, size_t);
+static int (*real_posix_memalign)(void **, size_t, size_t);
+static void *(*real_aligned_alloc)(size_t, size_t);
+static void *(*real_memalign)(size_t, size_t);
 static char boot[65536];
 static size_t boot_off;
 static int initing;
@@ -40,6 +43,9 @@ static void init(void) {
   real_free = dlsym(RTLD_NEXT, "free");
   real_realloc = dlsym(RTLD_NEXT, "realloc");
   real_calloc = dlsym(RTLD_NEXT, "calloc");
+  real_posix_memalign = dlsym(RTLD_NEXT, "posix_memalign");
+  real_aligned_alloc = dlsym(RTLD_NEXT, "aligned_alloc");
+  real_memalign = dlsym(RTLD_NEXT, "memalign");
   initing = 0;
 }
 
@@ -209,6 +215,29 @@ void *calloc(size_t a, size_t b) {
   void *p = g ? real_calloc(a * b + GUARD, 1) : real_calloc(a, b);
   handed_out(p);
   if (g && p) g_adopt(p, a * b);
+  return p;
+}
+
+/* aligned allocations hand addresses out too (C++ aligned new in LLVM): without these the tracker would take the
+ * free of a recycled address for a second free */
+int posix_memalign(void **out, size_t align, size_t n) {
+  if (!real_posix_memalign) init();
+  int r = real_posix_memalign(out, align, n);
+  if (r == 0) handed_out(*out);
+  return r;
+}
+
+void *aligned_alloc(size_t align, size_t n) {
+  if (!real_aligned_alloc) init();
+  void *p = real_aligned_alloc(align, n);
+  handed_out(p);
+  return p;
+}
+
+void *memalign(size_t align, size_t n) {
+  if (!real_memalign) init();
+  void *p = real_memalign(align, n);
+  handed_out(p);
   return p;
 }
 
